@@ -140,7 +140,7 @@ func (e *Exec) app(sort Sort, op string, args ...*Term) *Term {
 }
 
 func (e *Exec) fresh(sort Sort, hint string) *Term {
-	if e.local != nil {
+	if e.local != nil || e.ifc != nil {
 		panic(localFail{"fresh symbol in summarised function"})
 	}
 	e.freshCtr++
